@@ -184,3 +184,97 @@ func ZZ_OptionConflicts() {
 	verif.Assert(c.WatchAll(ctx, make(chan state.Event), nil, state.WithBootstrapContents(true), state.WithKindStartFromBookmark(bm)) != nil, "WatchKind: bootstrap and bookmark together rejected")
 	verif.Cover("conflicts rejected")
 }
+
+// zzPublish commits one more tagged event the way Create/Update do (under the lock).
+func zzPublish(c *ResourceCollection, id resource.ID, tag int64) {
+	c.mu.Lock()
+	c.publish(state.Event{Type: state.Created, Resource: zzTagged(id, tag)})
+	c.mu.Unlock()
+}
+
+// ZZ_ResumeIsSuffix (C12-2, C02-1b): a kind watch resumed from the bookmark of
+// event P, on a collection at ANY write position, delivers exactly the events
+// P+1, P+2, ... in order, each with the bookmark of its own position, also
+// while more events are published; it is errored only if it lags by more than
+// the capacity, and it never stops silently.
+func ZZ_ResumeIsSuffix() {
+	cfg := zzPickCfg()
+	W := zzSymW(cfg)
+	c := zzCollectionAt(cfg, W, func(int64) resource.ID { return "x" })
+	P := verif.Int64("P")
+	verif.Assume(verif.And(P >= W-int64(cfg.capacity)+int64(cfg.gap), P >= -1, P < W))
+	ctx, cancel := context.WithCancel(context.Background())
+	defer cancel()
+	agg := verif.Choose("aggregated", 2) == 1
+	single := make(chan state.Event)
+	batches := make(chan []state.Event)
+	var err error
+	if agg {
+		err = c.WatchAll(ctx, nil, batches, state.WithKindStartFromBookmark(encodeBookmark(P)))
+	} else {
+		err = c.WatchAll(ctx, single, nil, state.WithKindStartFromBookmark(encodeBookmark(P)))
+	}
+	verif.Assert(err == nil, "bookmark inside the retained window is accepted")
+	next := P + 1 // position of the next event we must receive
+	published := W
+	errored := false
+	var pending []state.Event
+	recv := func() state.Event {
+		if agg {
+			if len(pending) == 0 {
+				pending = <-batches
+				verif.Assert(len(pending) > 0, "aggregated batches are never empty")
+			}
+			ev := pending[0]
+			pending = pending[1:]
+			return ev
+		}
+		return <-single
+	}
+	rounds := 1
+	if verif.Tier() == "thorough" {
+		rounds = 2
+	}
+	for r := 0; r < rounds && !errored; r++ {
+		if verif.Choose("settle", 2) == 1 {
+			verif.Quiesce() // let the watcher run until it is idle (parked waiting for news)
+			verif.Cover("watcher idle before publishes")
+		}
+		n := verif.Choose("publishes", cfg.capacity+2)
+		for i := 0; i < n; i++ {
+			zzPublish(c, "x", published)
+			published++
+		}
+		take := verif.Choose("receives", cfg.capacity+2)
+		for k := 0; k < take && next < published && !errored; k++ {
+			ev := recv()
+			if ev.Type == state.Errored {
+				errored = true
+				break
+			}
+			verif.Assert(ev.Resource != nil && zzTag(ev) == next, "resumed stream continues with exactly the next event (no gap, duplicate or reordering)")
+			pos, derr := decodeBookmark(ev.Bookmark)
+			verif.Assert(derr == nil && pos == next, "every delivered event carries a usable bookmark of its own position")
+			next++
+		}
+	}
+	// drain: everything published must arrive unless the watcher was errored
+	for next < published && !errored {
+		ev := recv()
+		if ev.Type == state.Errored {
+			errored = true
+			break
+		}
+		verif.Assert(ev.Resource != nil && zzTag(ev) == next, "resumed stream continues with exactly the next event (no gap, duplicate or reordering)")
+		next++
+	}
+	if errored {
+		verif.Cover("overrun reported")
+		verif.Assert(published-next > int64(cfg.capacity), "a watcher is errored only if it lagged by more than the (initial) capacity")
+	} else {
+		verif.Cover("resumed stream complete")
+	}
+	if c.capacity != cfg.capacity {
+		verif.Cover("grown while watching")
+	}
+}
